@@ -23,7 +23,7 @@ LEVEL = 'exploration'
 RULE = (
     'cases: histories of 40-200 random steps over a pool of analysis objects (TrajectoryMetrics, Transitions, Jumps, '
     'Collective) built from 5 different site systems (metrics objects also on related trajectories - full, diffusing species only, a slice, a split part - which share whatever the library shares between a trajectory and its derivations; their reference is a twin on a trajectory rebuilt from the raw arrays): create / call a cached method with varying arguments '
-    '(dimensions 1-3, z_ion 1-3, n_parts, max_dist) / drop + liveness check / drop-and-recreate at the same address / '
+    '(dimensions 1-3, z_ion 1-3, n_parts, max_dist) / copy a live object (copy, deepcopy, pickle) and point the copy at other data / drop + liveness check / drop-and-recreate at the same address / '
     'explicit gc.collect; schedule dimension = gc disabled, gc threshold (1,1,1) or default; every tenth history '
     'creates more live objects than the cache size (128) to force evictions.  Oracle: uncached recomputation via '
     'method.__wrapped__ on the same object + reference values of a pristine twin object rebuilt from the raw arrays (it shares no trajectory, metadata dict, site structure or Transitions with the pool).  '
@@ -361,6 +361,30 @@ def run_unit(unit, rng, ctx):
             hist.append(f'recreate {kind}#{k2} reuse={hit}')
             return hit
 
+        def do_copy(ent):
+            """A copy (shallow, deep or through pickle) of a live, possibly already queried object is another
+            object; it is then pointed at the data of another template, and must answer for that data."""
+            import copy
+            import pickle
+
+            obj, kind, k, _ = ent
+            how = str(rng.choice(['copy.copy', 'copy.deepcopy', 'pickle']))
+            try:
+                cp = copy.copy(obj) if how == 'copy.copy' else (copy.deepcopy(obj) if how == 'copy.deepcopy' else pickle.loads(pickle.dumps(obj)))
+            except Exception as exc:  # noqa: BLE001  (third-party members that cannot be copied: not judged here)
+                ctx.count(f'copy_not_possible:{how}:{type(exc).__name__}')
+                return
+            k2 = (k + 1 + int(rng.integers(len(templates) - 1))) % len(templates)
+            src = templates[k2].make(kind)
+            for attr, val in list(vars(src).items()):
+                if not attr.startswith('_'):
+                    setattr(cp, attr, val)
+            del src
+            pool.append([cp, kind, k2, False])
+            hist.append(f'{how} of {kind}#{k} -> pointed at the data of #{k2}')
+            ctx.count(f'copies_of_live_objects:{how}')
+            do_call(pool[-1])
+
         def do_flood():
             objs = [templates[i % 5].make('metrics' if i % 2 else 'transitions') for i in range(140)]
             vals = [invoke(o, 'particle_density' if i % 2 else 'states_next', (), {}) for i, o in enumerate(objs)]
@@ -378,8 +402,10 @@ def run_unit(unit, rng, ctx):
                     k = int(rng.integers(len(templates)))
                     pool.append([templates[k].make(kind), kind, k, False])
                     hist.append(f'create {kind}#{k}')
-                elif u < 0.62:
+                elif u < 0.56:
                     do_call(pool[int(rng.integers(len(pool)))])
+                elif u < 0.62:
+                    do_copy(pool[int(rng.integers(len(pool)))])
                 elif u < 0.82:
                     ref, addr, kind, k, called = do_drop(int(rng.integers(len(pool))))
                     if sched == 'disabled' or rng.integers(2):
